@@ -212,8 +212,11 @@ def finish(rep: Report) -> int:
     cases = sum(b.cases for b in rep.bounded)
     nontrivial = sum(b.nontrivial for b in rep.bounded)
     coverage: dict[str, Any] = {
-        "obligations": len(obs),
+        # obligations whose refutation is entirely inside a listed known-finding class are reported separately: they are
+        # neither discharged nor open (their witnesses are replayed and printed as KNOWN-FINDING lines)
+        "obligations": len(obs) - sum(1 for o in refuted if o.finding),
         "discharged": n_proved,
+        "obligations_generated_including_known_finding_ones": len(obs),
         "refuted_covered_by_known_findings": sum(1 for o in refuted if o.finding),
         "undecided": [o.brief() for o in undecided][:40],
         "checker_cmd": f"./check {rep.pid} --tier {rep.tier}",
